@@ -587,6 +587,8 @@ impl Node {
                         old_verifying_key: Some(node.verifying_key),
                         old_fts_str: old_fts,
                         node_fts_str: None,
+                        announced_mdate: node_id.mdate,
+                        announced_signature: node_id.signature,
                     };
 
                     result.push(node_to_insert);
@@ -613,6 +615,8 @@ impl Node {
                     old_verifying_key: None,
                     old_fts_str: None,
                     node_fts_str: None,
+                    announced_mdate: node_id.mdate,
+                    announced_signature: node_id.signature,
                 };
 
                 result.push(node_to_insert);
@@ -821,8 +825,22 @@ pub struct NodeToInsert {
     pub old_entity: Option<String>,
     pub old_fts_str: Option<String>,
     pub node_fts_str: Option<String>,
+    //version announced by the remote peer, the one that Node::filter_existing has compared to the stored row and to the deletion log
+    pub announced_mdate: i64,
+    pub announced_signature: Vec<u8>,
 }
 impl NodeToInsert {
+    ///
+    /// true if the delivered node is older than the version that was announced for it,
+    /// in the order used by Node::filter_existing: modification date, then signature.
+    /// Only the announced version has been compared to the stored row and to the deletion log:
+    /// an older one could replace a newer stored row or bring back a deleted version
+    ///
+    pub fn is_older_than_announced(&self, node: &Node) -> bool {
+        node.mdate < self.announced_mdate
+            || (node.mdate == self.announced_mdate && node._signature < self.announced_signature)
+    }
+
     pub fn update_daily_logs(&self, daily_log: &mut DailyMutations) {
         if self.node.is_none() {
             return;
